@@ -5,7 +5,7 @@
 set -u
 id="$1"; tier="${2:-quick}"; shift; shift || true
 d="/verif/seeded/$id"
-prop="${id%%-*}"
+prop="${PROP:-${id%%-*}}"     # PROP=Cxx runs another property's check against the same change
 wt="/tmp/xrmc_seeded_$id.$$"
 git -C /repo worktree add -q --detach "$wt" HEAD || exit 2
 trap 'git -C /repo worktree remove --force "$wt" >/dev/null 2>&1; rm -rf "$wt"' EXIT
